@@ -392,14 +392,67 @@ def cold_twins(exports):
     return out
 
 
-def _cross_process(res, cfg):
+def alien_twins(exports):
+    """Runs in a pristine fork of a worker whose interpreter has a DIFFERENT hash salt.  hash() values
+    are not comparable across salts; what must hold is that the restored URL hashes like a URL built
+    from the same parts in this process (and can be found in a set holding it)."""
+    import base64
+    import pickle
+    from urllib.parse import SplitResult
+
+    out = []
+    for e in exports:
+        try:
+            t = pickle.loads(base64.b64decode(e["pickle"]))
+            obs = W.deep(t, e["order"])
+            flags = {}
+            for label, x in (("self", t), ("copy", __import__("copy").copy(t))):
+                fresh = W.URL(SplitResult(*W.shallow(x)), encoded=True)
+                flags[label + ".hash_like_fresh"] = hash(x) == hash(fresh)
+                flags[label + ".found_in_set"] = x in {fresh}
+                flags[label + ".eq_fresh"] = (x == fresh) is True
+            out.append({"obs": obs, "state": list(W.shallow(t)), "flags": flags})
+        except BaseException as ex_:  # noqa
+            if isinstance(ex_, (KeyboardInterrupt, SystemExit)):
+                raise
+            out.append({"obs": {"<unpickle>": W.exc_outcome(ex_)}, "state": None, "flags": {}})
+    return out
+
+
+def zy_alien_twins(arg, cfg):
     from .zygote import in_fork
+
+    return in_fork(alien_twins, arg["exports"], timeout=120)
+
+
+def _strip_hash(d):
+    if isinstance(d, dict):
+        return {k: _strip_hash(v) for k, v in d.items() if k != "hash"}
+    return d
+
+
+def _cross_process(res, cfg):
+    from .zygote import alien_call, in_fork
 
     exports = res.pop("exports", None) or []
     if not exports:
         return res
     cold = in_fork(cold_twins, exports, timeout=cfg.get("timeout", 120))
     res["counters"]["cross_process_twins"] = len(exports)
+    if res["seed"] % 6 == 0:
+        # every second exporting run: also in an interpreter with another hash salt
+        wire = [{"pickle": e["pickle"], "order": e["order"]} for e in exports]
+        alien = alien_call("c09", "alien_twins", {"exports": wire})
+        res["counters"]["alien_hash_salt_twins"] = len(exports)
+        for e, c in zip(exports, alien):
+            names = W.deep_diff(_strip_hash(e["obs"]), _strip_hash(c["obs"]))
+            bad = sorted(k for k, ok in c.get("flags", {}).items() if not ok)
+            if names or bad or (c["state"] is not None and c["state"] != e["state"]):
+                diff = {n: [_lookup(e["obs"], n), _lookup(c["obs"], n)] for n in names[:12]}
+                for k in bad:
+                    diff["other_process." + k] = [True, False]
+                res["violations"].append({"kind": "twin_mismatch", "when": "cross_process_other_hash_salt", "orig": e["idx"], "twin": None,
+                                          "orig_state": e["state"], "twin_state": c["state"], "route": e["route"], "root": e["root"], "diff": diff})
     for e, c in zip(exports, cold):
         names = W.deep_diff(e["obs"], c["obs"])
         if names or (c["state"] is not None and c["state"] != e["state"]):
